@@ -384,18 +384,21 @@ def finish(ctx, proof_info, coverage, violations, assumptions, level="proof", tr
     Applies known_findings, prints VIOLATION / KNOWN-FINDING lines, writes evidence, returns exit code."""
     known = [k for k in load_known(ctx.pid) if k.get("status") == "open"]
     real = []
+    known_printed = set()
     for v in violations:
         fp = v.get("fingerprint")
         hit = next((k for k in known if fp and k.get("fingerprint") == fp), None)
         if hit:
-            print("KNOWN-FINDING: property=%s %s" % (ctx.pid, hit.get("what", fp)), flush=True)
+            if fp not in known_printed:
+                known_printed.add(fp)
+                print("KNOWN-FINDING: property=%s %s" % (ctx.pid, hit.get("what", fp)), flush=True)
         else:
             real.append(v)
-    # at most one VIOLATION line per distinct fingerprint/what
+    # at most one VIOLATION line per distinct fingerprint / message class (digits normalised)
     seen = set()
     nviol = 0
     for v in real:
-        key = v.get("fingerprint") or v.get("what")
+        key = v.get("fingerprint") or re.sub(r"\d+", "N", str(v.get("what")))
         if key in seen:
             continue
         seen.add(key)
